@@ -11,7 +11,8 @@
       entries = <hexname>:<prio>:<idx>:<member>,…  (dict order); flags = one 0/1 per member (closed)
   step replies: none | <ok v|err E> | <calls> | <tree0> … | <flags'> | <closed'> | <table'/entries'> | adm=<E,…>
       calls = <member>:<method>:<hexpath>,…  (`-` when empty)
-  op = the operations of `ref.step`, plus `scandir <p>` and `validatepath <p>`.
+  op = the operations of `ref.step`, plus `scandir <p>`, `validatepath <p>`, `open <p> <mode> [<data>]`
+       (open, optionally write the data once, close), `readtext <p>`, `download <p>`, `writetext <p> <data>`.
   Mount table entry k (0-based) refers to member k+1; member 0 is `default_fs`.
 -/
 import FsModel.Mount
@@ -55,6 +56,19 @@ def parseProg (progOf : Ref.Op → Option Prog) (args : List String) : Option (O
   match name with
   | "scandir" => do let p ← arg args 1; pure (.inl (some (one (.scandir p))))
   | "validatepath" => do let p ← arg args 1; pure (.inl (some (.validate p (.ret (.ok .unit)))))
+  | "open" => do
+    let p ← arg args 1
+    let m ← arg args 2
+    let d : Option Bytes := match args[3]? with
+      | some h => hexToBytes h
+      | none => none
+    pure (.inl (some (one (.open_ p m d))))
+  | "readtext" => do let p ← arg args 1; pure (.inl (some (one (.readtext p))))
+  | "download" => do let p ← arg args 1; pure (.inl (some (one (.download p))))
+  | "writetext" => do
+    let p ← arg args 1
+    let d ← hexToBytes (← args[2]?)
+    pure (.inl (some (one (.writetext p d))))
   | "close" => pure (.inr ())
   | _ => do
     let op ← RefDriver.parseOp args
